@@ -486,7 +486,7 @@ func (d *Driver) isolate(cur *curRec, code int) *ViolationRec {
 			det := "did not terminate within 30 s of CPU time (>=10^5 x the median case cost); goroutine dump attached"
 			if ec == ExitMem {
 				sig = "memory-blowup"
-				det = "heap grew beyond 3 GiB for a bounded-size input"
+				det = "heap grew beyond 1.5 GiB for a bounded-size input"
 			}
 			return &ViolationRec{Property: d.Prop.ID, Tier: d.Tier, Seed: d.Seed, Case: cur.Case, Prog: cur.Prog, Doc: cur.Doc,
 				Sig: sig + ":" + hangSite(string(dump)), Detail: det, Stack: clip(string(dump), 6000)}
